@@ -51,6 +51,29 @@ def handle (req : Json) : Except String Json := do
       | "empty" => pure (mergeAllFromEmpty mp seq)
       | o => throw s!"bad start {o}"
     pure (Json.mkObj [("ok", true), ("tree", Json.arr (forestJson t).toArray)])
+  | "merge.find" => do
+    -- name lookups on the merged tree: queries [[scope…], [ref…]]
+    let files ← (← getArr req "files").toList.mapM (parseFile ph)
+    let order ← (← getArr req "order").toList.mapM (·.getNat?)
+    let seq ← order.mapM fun i =>
+      match files[i]? with
+      | some f => pure f
+      | none => throw s!"bad file index {i}"
+    let mp : String → String → String ← match (← getStr req "variant") with
+      | "asis" => pure keepFirst
+      | "fixed" => pure (fill ph)
+      | o => throw s!"bad variant {o}"
+    let t := mergeAll mp seq
+    let qs ← (← getArr req "queries").toList.mapM fun q => do
+      let a ← q.getArr?
+      let sc ← (← (a[0]?.getD Json.null).getArr?).toList.mapM (·.getStr?)
+      let rf ← (← (a[1]?.getD Json.null).getArr?).toList.mapM (·.getStr?)
+      pure (sc, rf)
+    let ans := qs.map fun (sc, rf) =>
+      match findClass t rf sc.reverse with
+      | some p => jstrs p
+      | none => Json.null
+    pure (Json.mkObj [("ok", true), ("found", Json.arr ans.toArray)])
   | o => throw s!"unknown-op {o}"
 
 def main : IO Unit := serve handle
